@@ -1,6 +1,7 @@
 \* C19 closed configuration, quick tier: <= 4 versions, one flavour set (all three are covered for
 \* <= 3 versions by MC_UpdateFile_emit_quick.cfg, and for <= 4 versions by MC_UpdateFile.cfg in the
-\* thorough tier)
+\* thorough tier); by the deadlock check, no stuck step
+\* (termination: MC_UpdateFile_live.cfg, with MaxN = 2 in the quick tier)
 SPECIFICATION SpecD
 CONSTANTS
   MaxN = 3
